@@ -104,6 +104,32 @@ CLAIMED = {
             'history enumeration + trace validation'),
 }
 
+# third session: what was added to each check (appended to the level text)
+ADDENDA = {
+    'C01': ' Disk-backed receivers: programs whose first template is written to netCDF and opened again (reopen step) and then transformed.',
+    'C02': ' The string form slice_dim is driven with its default fuzzydim=True; PncCore.tla FuzzyTargets states which dimensions it addresses (the named one and its numbered variants), template T9 has dimensions lev, lev2, lev2m, lev10.',
+    'C03': ' reduce_dim is driven with its default fuzzydim=True (FuzzyTargets, template T9). An in-domain apply call that raises is a violation of this property too.',
+    'C04': ' The multi-file open helpers pncmfopen / open_mfdataset are entry points of the stack step: pieces are written to disk by reopen steps and opened as one file in the order of the pieces and in other orders (also with descending coordinates, and without a dimension name: DefaultStackDim).',
+    'C05': ' Disk-backed receivers: 150 (quick) / 1500 programs call the queries (save, dump, getTimes, ...) and transformations on a template that was written to netCDF and opened again.',
+    'C07': ' Non-finite values (inf, nan) in unmasked cells of float variables.',
+    'C08': ' Steps of 24 hours for the meteorological formats (c.dth); lateral-boundary and gridded starts whose steps end on day 366 of a leap year and on 1 January; the re-read end time flags must be the flags of the source (a YYJJJ word must name an existing day).',
+    'C09': ' A YYJJJ word must name an existing day (99366 is not a spelling of 00001); steps of 24 hours for the meteorological formats.',
+    'C10': ' Template I6 is built from GRIDDESC text and carries the CF variables; coherence is demanded of every object of an ioapi_base subclass.',
+    'C12': ' The synthesis stage also adds time_bounds (n + 1 edges must be the instants of the flags plus one step), runs on attribute-only files and with steps of 100 hours or more.',
+    'C16': ' Datetime front-ends: time2idx on coordinates with CF units (four units, seven reference instants incl. offsets, probes as UTC / other zone / naive datetimes, list or array) and the older time2t (nearest / bounds / bounds_close; AllowedT2t); the value looked up is derived by TLC from the civil fields of the datetime passed (TimeVal over Calendar.tla).',
+    'C17': ' The grid pairs are also replayed far from the origin (offsets 1e5, 2.45e6, 1.6e9: coordinates large against their spacing); Interp_MC checks translation invariance of the weights.',
+    'C18': ' Tracers whose category offset + id has no line in the tracer table (intab = FALSE: named after the bare tracer, scale 1, unit of the data header) next to the bare tracer in an offset-0 category.',
+    'C19': ' The independent variable is stored as double, int32, int64 or float32, dependent variables as double or float32.',
+    'C20': ' Grids with 1000 or more cells in one direction (GridId: letters in the label, remainders in the index record).',
+}
+NOTE_FIX = {
+    'C16': ('Datetime front-end time2idx is covered through C12 (date2num round trip) rather than here.', 'time2t is exercised on ascending time axes with explicit n x 2 time_bounds or uniform spacing (getTimes(bounds=True) is approximate otherwise, with a warning).'),
+    'C08': ('Land use is not modelled (DESIGN.md I.2); ', 'Land use (old and new style, optional records) is in the grammar too; '),
+    'C09': ('Land use is not modelled (DESIGN.md I.2); ', 'Land use (old and new style, optional records) is in the grammar too; '),
+    'C13': ('Land use is not modelled (DESIGN.md I.2); ', ''),
+    'C14': ('Land use is not modelled (DESIGN.md I.2); ', ''),
+}
+
 NOT_YET = {}
 
 
@@ -116,6 +142,9 @@ def main():
         pid = p['id']
         if pid in CLAIMED:
             ref, text, note, tech = CLAIMED[pid]
+            text = text + ADDENDA.get(pid, '')
+            if pid in NOTE_FIX:
+                note = note.replace(*NOTE_FIX[pid])
             checks.append({
                 'property_id': pid,
                 'quick_cmd': './check %s --tier quick' % pid,
